@@ -16,6 +16,8 @@ import (
 
 func TestMain(m *testing.M) {
 	flag.Parse()
+	// the library must render UTC whatever the process's local zone is
+	time.Local = time.FixedZone("SIM", 5*3600+30*60)
 	// the real-time watchdog lives outside every bubble
 	wrk.StartWatchdog(30 * time.Second)
 	os.Exit(m.Run())
